@@ -102,6 +102,9 @@ def run_case(case):
         if pn != ">" and a in ords:
             flows.append("%s:flow" % pn.split(",")[0].strip())
     flows = list(dict.fromkeys(flows))[:4]
+    if ords:
+        flows += ["%s:" % ords[0], ":%s" % ords[-1]]  # all outflows of / all inflows to a compartment (several links per population)
+        flows = list(dict.fromkeys(flows))
     named = []
     if len(ords) >= 2:
         named.append({"n_sum": [ords[0], ords[1]]})
